@@ -481,6 +481,18 @@ Proof.
 Qed.
 Print Assumptions C14_is_list_cycles.
 
+(* append with an improper list among the copied arguments is an error.  [bad] is the last
+   improper argument (finite chain ending in something other than ()); the arguments after
+   it are proper lists, those before it are never examined *)
+Theorem C14_append_improper : forall fuel s before bad after last xss xsb e,
+  values_are_refs s -> Forall (val_ok s) (before ++ bad :: after) -> val_ok s last ->
+  called_with s ((before ++ bad :: after) ++ [last]) ->
+  Forall2 (fun l xs => achain (abs s) (absv s l) xs (AImm VNil) /\ (length xs + 2 < fuel)%nat) after xss ->
+  achain (abs s) (absv s bad) xsb e -> e <> AImm VNil -> (length xsb + 2 < fuel)%nat ->
+  render_fail (call_builtin (append fuel) s).
+Proof. exact append_improper. Qed.
+Print Assumptions C14_append_improper.
+
 (* ---------------------------------------------------------------------- equal? *)
 (* equal_spec.  On finite plain data ([adatum s x n]: booleans, characters, (), numbers,
    symbols, strings, pairs, vectors; n bounds the depth, so the data is acyclic), with
@@ -549,17 +561,6 @@ Print Assumptions C14_apply_cons.
 (* Statements that are NOT proved yet.  They are kept here at full strength so that
    what is claimed above cannot be mistaken for the whole of C14; each is exercised by
    the correspondence check and the reference-store oracle only. *)
-
-(* OPEN: append with an improper list among the copied arguments reports an error
-   (the proper-list case is C14_append_refines above) *)
-Definition append_improper_stmt : Prop :=
-  forall fuel s (lists : list vcell) (last : vcell),
-  values_are_refs s -> Forall (val_ok s) lists -> val_ok s last ->
-  called_with s (lists ++ [last]) ->
-  (exists l xs e, In l lists /\ achain (abs s) (absv s l) xs e /\ e <> AImm VNil /\
-                  (length xs + 1 < fuel)%nat) ->
-  Forall (fun l => exists xs e, achain (abs s) (absv s l) xs e /\ (length xs + 1 < fuel)%nat) lists ->
-  render_fail (call_builtin (append fuel) s).
 
 (* OPEN (hand model of prelude.scm:147-258, Model/PreludeLists.v; to be re-stated over the
    generated prelude run by the VM model): the Scheme-defined list procedures.  Only
